@@ -316,6 +316,7 @@ def c12_queries(tier):
 def c10_queries(tier):
     N = 8 if tier == 'quick' else 24
     return [utf8dom_query('C10', N, N), pipeline_query('C10', 9 if tier == 'quick' else 12, timeout=5000),
+            tld_query('C10', 3, 3), special_query('C10', 11 if tier == 'quick' else 13),
             email_query('C10', 3, 16 if tier == 'quick' else 40, covers=['end', 'idn-error', 'accepted-hostname', 'tld-class'])]
 
 
